@@ -59,7 +59,8 @@ StepQ(op, args, ret)    == Step(op, args, ret, a, b, bl, it, held)      \* a que
 
 (* program discipline of the modelled caller *)
 Plain   == it = NIL /\ held = 0                   \* no iterator alive, caller holds no argument objects
-Room    == bl => Diff(a, b) < BDepth              \* model bound on how far the two copies drift apart
+NOBOUND == 100000                                  \* BDepth >= NOBOUND: no bound (trace validation; Diff is not evaluated)
+Room    == bl => (BDepth >= NOBOUND \/ Diff(a, b) < BDepth)   \* model bound on how far the two copies drift apart
 CanMutA == Plain /\ Room
 CanMutB == Plain /\ bl /\ Room
 
@@ -78,6 +79,27 @@ OpSetKeep(k, v) == LET r == SetRes(a, k, v) IN
 OpCallerMutates == /\ held = 1 /\ Step("caller_mutates", <<>>, TRUE, a, b, bl, it, 2)       \* S: no-op on the map
 \* ... and deletes them
 OpCallerDeletes == /\ held \in {1, 2} /\ Step("caller_deletes", <<>>, TRUE, a, b, bl, it, 0)  \* S: no-op on the map
+\* Aliased arguments (round 3): the argument IS an object the map itself owns.  S: "the map holds its own copies", so
+\* handing it its own objects must behave exactly like handing it equal caller-owned ones.  (Only while no copy is live:
+\* model bound.)
+\* set(k, get(j)): the value argument is the value object the map stores under j (j = k: the touch idiom)
+OpSetFrom(k, j) == LET r == SetRes(a, k, a[j]) IN
+               /\ CanMutA /\ ~bl /\ Has(a, j) /\ StepA("set_from", <<k, j>>, r.replaced, r.m)
+\* set(p, NULL) where p is the map's OWN pair for j (as handed out by its iterator): nothing changes
+OpSetOwnPair(j) == /\ CanMutA /\ ~bl /\ Has(a, j) /\ StepA("set_own_pair", <<j>>, TRUE, a)
+\* set(key object of the map's own pair for j, fresh v)
+OpSetOwnKey(j, v) == LET r == SetRes(a, j, v) IN
+               /\ CanMutA /\ ~bl /\ Has(a, j) /\ StepA("set_own_key", <<j, v>>, r.replaced, r.m)
+\* remove(key object of the map's own pair for j)
+OpRemoveOwnKey(j) == LET r == RemRes(a, j) IN
+               /\ CanMutA /\ ~bl /\ Has(a, j) /\ StepA("remove_own_key", <<j>>, r.ret, r.m)
+\* Macro step for the size sweeps (round 3): set(k, v) for k = lo, lo+st, .. <= hi, in that order, each with fresh
+\* caller objects that are deleted afterwards.  ret = how many of them replaced an entry.
+FillKeys(lo, hi, st) == {k \in lo .. hi : (k - lo) % st = 0}
+OpFillSet(lo, hi, st, v) ==
+               /\ CanMutA /\ ~bl /\ lo \in Keys /\ hi \in Keys /\ lo <= hi /\ st >= 1
+               /\ StepA("fill_set", <<lo, hi, st, v>>, Cardinality({k \in FillKeys(lo, hi, st) : a[k] # ABSENT}),
+                        [k \in Keys |-> IF k \in FillKeys(lo, hi, st) THEN v ELSE a[k]])
 OpRemove(k) == LET r == RemRes(a, k) IN
                /\ CanMutA /\ StepA("remove", <<k>>, r.ret, r.m)          \* the returned pair is the caller's
 OpDone      == /\ CanMutA /\ StepA("done", <<>>, TRUE, EmptyMap)         \* C06: empty and reusable
@@ -135,6 +157,10 @@ OpAdopt      == /\ Plain /\ bl /\ Step("adopt", <<>>, TRUE, b, EmptyMap, FALSE, 
 Init == a = EmptyMap /\ b = EmptyMap /\ bl = FALSE /\ it = NIL /\ held = 0
 
 Next == \/ \E k \in Keys, v \in Vals : OpSet(k, v) \/ OpSetPair(k, v) \/ OpSetKeep(k, v) \/ OpBSet(k, v)
+        \/ \E k \in Keys, j \in Keys : OpSetFrom(k, j)
+        \/ \E j \in Keys : OpSetOwnPair(j) \/ OpRemoveOwnKey(j)
+        \/ \E j \in Keys, v \in Vals : OpSetOwnKey(j, v)
+        \/ \E lo \in Keys, hi \in Keys, st \in 1 .. 2, v \in Vals : (st = 1 \/ hi - lo >= 2) /\ OpFillSet(lo, hi, st, v)
         \/ \E k \in ProbeKeys : OpRemove(k) \/ OpGet(k) \/ OpHasKey(k) \/ OpBRemove(k) \/ OpBGet(k)
         \/ \E v \in ProbeVals : OpHasValue(v)
         \/ \E np \in {NODEST} \cup PriorCount, dc \in {0} \cup DestClass, reps \in Reps :
@@ -176,6 +202,12 @@ RemoveOnce == \A k \in ProbeKeys :
     /\ ~Has(a, k) => r.m = a
     /\ ~Has(r.m, k) /\ RemRes(r.m, k).ret = NOPAIR
     /\ \A j \in ProbeKeys : j # k => Lookup(r.m, j) = Lookup(a, j)
+
+\* the macro step is the iteration of set: checked against SetRes on the whole bounded universe
+FillLaw == \A lo \in Keys, hi \in Keys, st \in 1 .. 2, v \in Vals : lo <= hi =>
+    LET RECURSIVE It(_, _)
+        It(m, k) == IF k > hi THEN m ELSE It(SetRes(m, k, v).m, k + st)
+    IN  It(a, lo) = [k \in Keys |-> IF k \in FillKeys(lo, hi, st) THEN v ELSE a[k]]
 
 IterLaw == it # NIL => it <= Size(a) + 1
 \* action properties (checked on every generated transition)
